@@ -441,6 +441,175 @@ fn h2f_det_rel<F: OracleRepr, H: FixedOutputReset + Default + Clone>(name: &str,
     Ok(())
 }
 
+/// Long outputs: `hash_to_field::<N>` for N up to the largest count the XMD expander accepts (ell = ceil(N*m*L/32) <= 255;
+/// with L = 64: N*m <= 127), i.e. 33..=254 SHA-256 blocks where the ordinary relation stops at 32.
+fn h2f_long_any<F: Field>(n: usize, dst: &[u8], msg: &[u8]) -> Vec<F> {
+    match n {
+        5 => h2f_n::<F, Sha256, 5>(dst, msg),
+        7 => h2f_n::<F, Sha256, 7>(dst, msg),
+        16 => h2f_n::<F, Sha256, 16>(dst, msg),
+        17 => h2f_n::<F, Sha256, 17>(dst, msg),
+        32 => h2f_n::<F, Sha256, 32>(dst, msg),
+        33 => h2f_n::<F, Sha256, 33>(dst, msg),
+        63 => h2f_n::<F, Sha256, 63>(dst, msg),
+        64 => h2f_n::<F, Sha256, 64>(dst, msg),
+        100 => h2f_n::<F, Sha256, 100>(dst, msg),
+        127 => h2f_n::<F, Sha256, 127>(dst, msg),
+        _ => unreachable!("count not instantiated"),
+    }
+}
+
+fn h2f_long_rel<F: OracleRepr>(f: &Fa, name: &str, t: &mut Tape<'_>, o: &mut Obs) -> R {
+    let m = f.tw.degree();
+    let l = rfc::len_per_elem(&f.prime.p, 128);
+    // counts admissible for this field: ell = ceil(n*m*l/32) <= 255
+    let all = [63usize, 5, 7, 16, 17, 32, 33, 64, 100, 127];
+    let ok: Vec<usize> = all.iter().copied().filter(|n| (n * m * l + 31) / 32 <= 255).collect();
+    let n = ok[t.idx(ok.len())];
+    let dst = gen_dst(t, o);
+    let msg = gen_msg(t);
+    let blocks = (n * m * l + 31) / 32;
+    o.show(|| format!("{}: hash_to_field::<{}> msg={} dst={} ({} blocks)", name, n, hexb(&msg), hexb(&dst), blocks));
+    o.nt(true);
+    o.class_if(blocks > 32, "blocks>32");
+    o.class_if(blocks > 64, "blocks>64");
+    o.class_if(blocks > 128, "blocks>128");
+    o.class_if(blocks >= 252, "blocks>=252(max)");
+    o.evals(1);
+    let got: Vec<F> = no_panic("hash_to_field", || h2f_long_any::<F>(n, &dst, &msg))?;
+    ensure!(got.len() == n, "hash_to_field.count", "asked for {} elements, got {}", n, got.len());
+    ensure!(got.iter().all(|x| x.canonical()), "hash_to_field.noncanonical", "non-canonical coordinate");
+    let want = rfc::hash_to_field(&msg, &dst, &f.prime.p, m, n);
+    let got_c: Vec<Vec<BigUint>> = got.iter().map(|x| f.tw.flatten(&x.to_o())).collect();
+    if got_c != want {
+        let i = (0..n).find(|i| got_c[*i] != want[*i]).unwrap();
+        return vh_core::fail(
+            "hash_to_field.rfc.long",
+            format!("element {} of {}: got {:x?} expected {:x?} (msg {} bytes, dst {} bytes, {} blocks)", i, n, got_c[i], want[i], msg.len(), dst.len(), blocks),
+        );
+    }
+    Ok(())
+}
+
+/// `curve_maps::parity` (documented as sgn0 of RFC 9380 section 4.1) called directly: parity of the first non-zero
+/// prime-field coordinate, false for zero.  Elements: edge values per coordinate, with a prefix of the coordinates forced
+/// to zero (so that the deciding coordinate is the second one, with either parity), 0, p-1, (p-1)/2, (p+1)/2.
+fn parity_rel<F: OracleRepr>(f: &Fa, name: &str, t: &mut Tape<'_>, o: &mut Obs) -> R {
+    let d = f.tw.degree();
+    let mut c: Vec<BigUint> = (0..d).map(|_| edge_value(t, &f.prime).0).collect();
+    let zero_prefix = t.below(d as u64 + 1) as usize; // 0..=d leading coordinates forced to zero
+    for ci in c.iter_mut().take(zero_prefix) {
+        *ci = BigUint::zero();
+    }
+    let x = f.tw.unflatten(&c);
+    let first_nz = c.iter().position(|v| !v.is_zero());
+    o.show(|| format!("{}: parity({})", name, f.hex(&x)));
+    o.nt(first_nz.map_or(false, |i| i > 0));
+    o.class(match first_nz {
+        None => "parity:zero",
+        Some(0) => "parity:decided-by-c0",
+        Some(_) => "parity:decided-by-later-coordinate",
+    });
+    let want = f.sgn0(&x);
+    o.class_if(want, "parity:odd");
+    let got = no_panic("parity", || ark_ec::hashing::curve_maps::parity(&F::from_o(&x)))?;
+    ensure!(got == want, "parity", "parity({}) = {} but sgn0 = {}", f.hex(&x), got, want);
+    // sgn0(-x) = !sgn0(x) for x != 0 in odd characteristic (metamorphic, via the library's negation)
+    if first_nz.is_some() {
+        let neg = -F::from_o(&x);
+        let got_neg = no_panic("parity", || ark_ec::hashing::curve_maps::parity(&neg))?;
+        ensure!(got_neg != got, "parity.neg", "parity(-x) = parity(x) = {} for x = {}", got, f.hex(&x));
+    }
+    Ok(())
+}
+
+/// A byte stream handed to the library as an extendable-output reader; records how it was consumed.
+struct StreamXof {
+    data: Vec<u8>,
+    pos: usize,
+    reads: Vec<usize>,
+}
+
+impl sha2::digest::XofReader for StreamXof {
+    fn read(&mut self, buffer: &mut [u8]) {
+        self.reads.push(buffer.len());
+        for b in buffer.iter_mut() {
+            *b = self.data.get(self.pos).copied().unwrap_or(0);
+            self.pos += 1;
+        }
+    }
+}
+
+fn h2f_xof_call<F: Field, const K: usize>(x: &mut StreamXof) -> F {
+    ark_ff::field_hashers::hash_to_field::<F, StreamXof, K>(x)
+}
+
+/// The XOF-reader entry point `field_hashers::hash_to_field::<F, H, SEC_PARAM>(&mut reader)`: one element of F from the
+/// next m*L bytes of the stream, L = ceil((ceil(log2 p) + k)/8), coordinate j = OS2IP(bytes[jL..(j+1)L]) mod p
+/// (RFC 9380 section 5.2 steps 4-8 for one element).  The stream is chosen by the tape, so each L-byte window can be
+/// zero, all ones, c*p + small (reduces to a small value / to p-1) or the largest multiple of p that fits.
+fn h2f_xof_rel<F: OracleRepr>(f: &Fa, name: &str, t: &mut Tape<'_>, o: &mut Obs) -> R {
+    let k = t.pick(&[128usize, 0, 127, 256]);
+    let m = f.tw.degree();
+    let p = &f.prime.p;
+    let l = rfc::len_per_elem(p, k);
+    let cap = BigUint::from(1u8) << (8 * l);
+    let mut data: Vec<u8> = Vec::new();
+    let mut classes: Vec<&'static str> = Vec::new();
+    // m windows for the element under test, then one more window that must stay unread
+    for _ in 0..m + 1 {
+        let (v, cls): (BigUint, &'static str) = match t.weighted(&[6, 1, 1, 3, 2]) {
+            0 => (BigUint::from_bytes_be(&t.bytes(l)), "window=random"),
+            1 => (BigUint::zero(), "window=zero"),
+            2 => (&cap - 1u32, "window=all-ones"),
+            3 => {
+                // c*p + d with d in {-2..2}, c below cap/p
+                let cmax = &cap / p;
+                let c = if cmax.is_zero() { BigUint::zero() } else { big_below(t, &(&cmax + 1u32)) };
+                let d = t.below(5);
+                let base = &c * p;
+                let v = if d >= 2 { base + (d - 2) } else if base >= BigUint::from(2 - d) { base - (2 - d) } else { base };
+                (if v < cap { v } else { &cap - 1u32 }, "window=multiple-of-p+-2")
+            },
+            _ => {
+                let top = (&cap - 1u32) / p * p;
+                (top, "window=largest-multiple-of-p")
+            },
+        };
+        let mut b = v.to_bytes_be();
+        while b.len() < l {
+            b.insert(0, 0);
+        }
+        data.extend_from_slice(&b[b.len() - l..]);
+        classes.push(cls);
+    }
+    o.show(|| format!("{}: hash_to_field::<F, XofReader, {}>: L={} stream={}", name, k, l, hexs(&data[..m * l])));
+    for c in &classes[..m] {
+        o.class(c);
+    }
+    o.class(match k {
+        128 => "k=128",
+        0 => "k=0",
+        127 => "k=127",
+        _ => "k=256",
+    });
+    o.nt(true);
+    o.evals(2);
+    let mut x = StreamXof { data: data.clone(), pos: 0, reads: Vec::new() };
+    let got: F = no_panic("hash_to_field.xof", || match k {
+        128 => h2f_xof_call::<F, 128>(&mut x),
+        0 => h2f_xof_call::<F, 0>(&mut x),
+        127 => h2f_xof_call::<F, 127>(&mut x),
+        _ => h2f_xof_call::<F, 256>(&mut x),
+    })?;
+    ensure!(got.canonical(), "hash_to_field.xof.noncanonical", "non-canonical coordinate");
+    let want: Vec<BigUint> = (0..m).map(|j| BigUint::from_bytes_be(&data[j * l..(j + 1) * l]) % p).collect();
+    let got_c = f.tw.flatten(&got.to_o());
+    ensure!(got_c == want, "hash_to_field.xof", "k={} L={}: got {:x?} expected {:x?} for stream {}", k, l, got_c, want, hexs(&data[..m * l]));
+    ensure!(x.pos == m * l, "hash_to_field.xof.consumed", "consumed {} bytes of the stream (reads {:?}), expected m*L = {}", x.pos, x.reads, m * l);
+    Ok(())
+}
+
 // -----------------------------------------------------------------------------------------------
 // maps
 // -----------------------------------------------------------------------------------------------
@@ -936,6 +1105,41 @@ fn relations(tier: Tier) -> Vec<Rel> {
         h2f_det_rel::<ark_ed_on_bls12_381_bandersnatch::Fq, Sha512>("bandersnatch.Fq/SHA-512", t, o)
     }));
     out.push(Rel::new("hash_to_field.det/toy.F101.sha256", q(400), TAPE_MSG, |t, o| h2f_det_rel::<vh_core::toy::Tf101, Sha256>("toy.F101/SHA-256", t, o)));
+    // long outputs (33..=254 SHA-256 blocks) for the fields with L = 64
+    macro_rules! h2f_long {
+        ($f:ty, $name:expr, $cases:expr) => {{
+            let fa = Arc::new(Fa::new(<$f as OracleRepr>::tower()));
+            assert_eq!(rfc::len_per_elem(&fa.prime.p, 128), 64, "RFC equality is claimed only when L = 64");
+            out.push(Rel::new(format!("hash_to_field.long/{}", $name), q($cases), TAPE_MSG, move |t, o| h2f_long_rel::<$f>(&fa, $name, t, o)));
+        }};
+    }
+    h2f_long!(ark_bls12_381::Fq, "bls12_381.Fq", 300);
+    h2f_long!(ark_bls12_381::Fq2, "bls12_381.Fq2", 300);
+    h2f_long!(ark_test_curves::bls12_381::Fq2, "test.bls12_381.Fq2", 150);
+    h2f_long!(ark_bls12_377::Fq, "bls12_377.Fq", 150);
+    // curve_maps::parity called directly
+    macro_rules! par {
+        ($f:ty, $name:expr) => {{
+            let fa = Arc::new(Fa::new(<$f as OracleRepr>::tower()));
+            out.push(Rel::new(format!("parity/{}", $name), q(600), 48, move |t, o| parity_rel::<$f>(&fa, $name, t, o)));
+        }};
+    }
+    par!(ark_bls12_381::Fq, "bls12_381.Fq");
+    par!(ark_bls12_381::Fq2, "bls12_381.Fq2");
+    par!(ark_bls12_377::Fq2, "bls12_377.Fq2");
+    par!(ark_ed_on_bls12_381_bandersnatch::Fq, "bandersnatch.Fq");
+    // the XOF-reader entry point of field_hashers (one element from a byte stream)
+    macro_rules! h2f_xof {
+        ($f:ty, $name:expr, $cases:expr) => {{
+            let fa = Arc::new(Fa::new(<$f as OracleRepr>::tower()));
+            out.push(Rel::new(format!("hash_to_field.xof/{}", $name), q($cases), 80, move |t, o| h2f_xof_rel::<$f>(&fa, $name, t, o)));
+        }};
+    }
+    h2f_xof!(ark_bls12_381::Fq, "bls12_381.Fq", 600);
+    h2f_xof!(ark_bls12_381::Fq2, "bls12_381.Fq2", 600);
+    h2f_xof!(ark_bls12_377::Fq2, "bls12_377.Fq2", 400);
+    h2f_xof!(ark_ed_on_bls12_381_bandersnatch::Fq, "bandersnatch.Fq", 400);
+    h2f_xof!(vh_core::toy::Tf101, "toy.F101", 400);
 
     // ---- WB configurations ---------------------------------------------------------------------
     macro_rules! wb {
@@ -1038,7 +1242,7 @@ fn relations(tier: Tier) -> Vec<Rel> {
 fn main() {
     vh_core::engine::main(PropSpec {
         id: "C13",
-        rule: "Cases are decoded from a proptest tape. (msg, DST): messages of 0..=300 bytes (lengths around the SHA-256 block/padding boundaries favoured; random, all-zero or all-0xff content), DSTs of 0..=400 bytes (0, 1..16, 17..64, 65..252, 253..258, 256..400, 400), hash_to_field::<N> for N in {1,2,3,4,8}. Map inputs u: 0, 1, -1, edge values, elements of Fp2 with c0 = 0, uniform, and the exceptional inputs computed by the harness (roots of Z^2u^4+Zu^2; every u whose SWU image is a 2-torsion point of E' or lies in the kernel of the configured isogeny, found by factoring g and the isogeny denominators over the field; roots of 1+Zu^2 for Elligator 2); toy configurations (SWU over F_89..F_1021, a 13-isogeny over F_127, a 2-isogeny with rational kernel over F_113, Elligator 2 over F_89..F_1013) are enumerated over every u. RFC 9380 equality (hash_to_field, map_to_curve, hash_to_curve against an independent sha2+BigUint reference and the official appendix J/K vectors) is claimed for the suites BLS12381G1_XMD:SHA-256_SSWU_RO_ and BLS12381G2_XMD:SHA-256_SSWU_RO_ in both test-curves and curves/bls12_381, and for hash_to_field over the BLS12-377 fields (L = 64 = SHA-256 block size); for BLS12-377 G1/G2 (WB), Bandersnatch (Elligator 2, SHA-512) and the toy configurations only determinism, image on the curve (harness equation), the sign convention of the map, kernel -> identity, hash = clear_cofactor(map(u0)+map(u1)) and r*hash = O are checked, because DefaultFieldHasher uses L as the XMD block size (observation O2). A case is non-trivial when |DST| > 255, or the expansion needs >= 2 SHA-256 blocks, or u is an exceptional input (tv1 = 0, image of order 2, image in the isogeny kernel, 1+Zu^2 = 0, u = 0), or u in Fp2 has c0 = 0; for the isogeny-additivity relation: P != +-Q or a kernel point is involved; distinct = distinct decoded choice sequences.",
+        rule: "Cases are decoded from a proptest tape. (msg, DST): messages of 0..=300 bytes (lengths around the SHA-256 block/padding boundaries favoured; random, all-zero or all-0xff content), DSTs of 0..=400 bytes (0, 1..16, 17..64, 65..252, 253..258, 256..400, 400), hash_to_field::<N> for N in {1,2,3,4,8}, and (relations hash_to_field.long/*) N in {5,7,16,17,32,33,63,64,100,127} as far as the expander accepts them (ell = ceil(N*m*64/32) <= 255), i.e. outputs of 10..=254 SHA-256 blocks. The XOF-reader entry point field_hashers::hash_to_field::<F, H, SEC_PARAM>(reader) (relations hash_to_field.xof/*) is fed a byte stream chosen by the tape (each L-byte window random, zero, all ones, c*p+d with |d| <= 2, or the largest multiple of p below 2^(8L)) for SEC_PARAM in {0,127,128,256} over BLS12-381 Fq/Fq2, BLS12-377 Fq2, Bandersnatch Fq and F_101; oracle: coordinate j = OS2IP(window j) mod p with L = ceil((ceil(log2 p)+k)/8), exactly m*L bytes consumed. curve_maps::parity is also called directly (relations parity/*) on elements of Fq and Fq2 whose leading coordinates are forced to zero, against sgn0 of RFC 9380 section 4.1 and parity(-x) != parity(x). Map inputs u: 0, 1, -1, edge values, elements of Fp2 with c0 = 0, uniform, and the exceptional inputs computed by the harness (roots of Z^2u^4+Zu^2; every u whose SWU image is a 2-torsion point of E' or lies in the kernel of the configured isogeny, found by factoring g and the isogeny denominators over the field; roots of 1+Zu^2 for Elligator 2); toy configurations (SWU over F_89..F_1021, a 13-isogeny over F_127, a 2-isogeny with rational kernel over F_113, Elligator 2 over F_89..F_1013) are enumerated over every u. RFC 9380 equality (hash_to_field, map_to_curve, hash_to_curve against an independent sha2+BigUint reference and the official appendix J/K vectors) is claimed for the suites BLS12381G1_XMD:SHA-256_SSWU_RO_ and BLS12381G2_XMD:SHA-256_SSWU_RO_ in both test-curves and curves/bls12_381, and for hash_to_field over the BLS12-377 fields (L = 64 = SHA-256 block size); for BLS12-377 G1/G2 (WB), Bandersnatch (Elligator 2, SHA-512) and the toy configurations only determinism, image on the curve (harness equation), the sign convention of the map, kernel -> identity, hash = clear_cofactor(map(u0)+map(u1)) and r*hash = O are checked, because DefaultFieldHasher uses L as the XMD block size (observation O2). A case is non-trivial when |DST| > 255, or the expansion needs >= 2 SHA-256 blocks, or u is an exceptional input (tv1 = 0, image of order 2, image in the isogeny kernel, 1+Zu^2 = 0, u = 0), or u in Fp2 has c0 = 0; for the isogeny-additivity relation: P != +-Q or a kernel point is involved; distinct = distinct decoded choice sequences.",
         assumptions: &[
             "the sha2 crate computes SHA-256/SHA-512 correctly (the reference is additionally anchored to the RFC 9380 appendix K.1 and J.9.1/J.10.1 vectors; the thorough tier re-computes samples with Python hashlib)",
             "num-bigint arithmetic is correct; the harness' fast square test/square root (norm method) and Jacobian double-and-add are cross-checked against Euler/Tonelli-Shanks and the textbook affine law in the oracle/* relations",
